@@ -165,6 +165,11 @@ def getslice(I, st, obj, sl, node):
         return [(st, Sym(z3.SubString(s_t, a, ln), "str", getattr(obj, "tags", frozenset())))]
     if is_host(obj) and deep_host(sl):
         return [(st, obj[slice(lo, hi, step)])]
+    sp = I.specs.get("getslice_obj")
+    if sp is not None:
+        r = sp(I, st, [obj, sl], {}, node)
+        if r is not None:
+            return r
     raise Unsupported(f"slice of {obj!r}", node)
 
 
